@@ -482,7 +482,11 @@ theorem run_fuel_independent (fns : List FnDef) (args : List Val) (fuel fuel' : 
   enum constructors, record literals (fields lowered and stored in the order in
   which the literal writes them, whatever the order of the record type),
   field access (`x.f` is a lazy path read,
-  `e.f` materialises `e`), list literals, f-strings, string concatenation
+  `e.f` materialises `e`), list literals, f-strings (every part converted — for a
+  value of the registered host type by a logged call of its `to_string`, the call
+  the compiler inserts implicitly — and appended before the next part is lowered),
+  `==` / `!=` on the host type (the lazy `BinOp` value stands for a logged call of
+  the type's equality, made where the value is materialised), string concatenation
   (`desugared_binop`), and `match` (examinee
   materialised once, discriminant switch, one guard chain per discriminant
   with the `_` arms woven in in source order, binders assigned before the
@@ -534,6 +538,27 @@ theorem lowerE_return_partial (fns : List FnDef) (P : Prog) (hP : lowerProg fns 
     (hl : lowerE e c = some (code, value, c')) (ha : Agree env σ)
     (h : evalExpr fns n env e = ⟨t, .ret v⟩) : ExecC P σ code t (.returned v) :=
   ((sim_all fns P (lowerProg_ok fns P hP) n).1 e env c code value c' σ hl ha).2 t v h
+
+open RotoV.LowerS in
+/-- **The lowering keeps an implicit call at its part** (T2 at an f-string whose first
+    interpolated part is a value of the registered host type): if `e` evaluates to the host
+    value `Tok x` after the calls `t1` and the remaining parts make the calls `t2`, then the
+    structured MIR of `f"{e}rest"` makes exactly `t1`, then the `to_string` call on `Tok x`,
+    then `t2` — the conversion is not delayed past any later part — and builds the text.
+    (Partial for the same reasons as `lowerS_trace_partial`.) -/
+theorem lowerS_fstring_implicit_call_partial (fns : List FnDef) (P : Prog) (hP : lowerProg fns = some P) (n : Nat)
+    (e : Expr) (rest : Parts) (env env1 env2 : Env) (c c' : Nat) (code : Code) (value : Value) (σ : Store)
+    (t1 t2 : Trace) (x : Int) (s : String)
+    (hl : lowerE (.fstr (.expr e rest)) c = some (code, value, c')) (ha : Agree env σ)
+    (he : (evalExpr fns n env e).yields t1 (env1, .tok x)) (hr : (evalParts fns n env1 rest).yields t2 (env2, s)) :
+    ∃ σ1 ta tb, ExecC P σ code ta (.normal σ1) ∧ EvalV P σ1 value tb (.str (tokText x ++ s))
+      ∧ t1 ++ [⟨fnToString, [.tok x]⟩] ++ t2 = ta ++ tb ∧ Agree env2 σ1 := by
+  have hp := fstring_implicit_call_at_its_part fns n env env1 env2 e rest t1 t2 x s he hr
+  have hev : evalExpr fns (n + 2) env (.fstr (.expr e rest))
+      = ⟨t1 ++ [⟨fnToString, [.tok x]⟩] ++ t2, .ok (env2, .str (tokText x ++ s))⟩ := by
+    simp only [evalExpr, bind_eq, R.bind_yields hp]
+    simp [pure_eq, R.ok]
+  exact lowerE_trace_partial fns P hP (n + 2) _ env env2 c c' code value σ _ _ hl ha hev
 
 /-- What a function body hands back: its value, or the operand of the `return` that ended it. -/
 def bodyValue : Out (Env × Val) → Option Val
@@ -799,6 +824,8 @@ example : ∃ sv, display (.int 9) = some sv := ⟨_, rfl⟩
 -- fstring_part_leaves / fstring_call_before_later_part_leaves
 example : (evalExpr [] 9 [] (.ret (emitI 1 4))).leaves [⟨0, [.int 1, .int 4]⟩] (.int 4) := by decide
 example : ((evalParts [] 9 [] (.expr (tokE 1 4) (.expr (.ret (emitI 2 7)) (.expr (tokE 3 5) .nil)))).tr.map (·.fn)) = [8, 9, 0] := by decide
+-- lowerS_fstring_implicit_call_partial: the f-string is in the lowering model's fragment
+example : (lowerE (.fstr demoFStr) 0).isSome = true := by decide
 -- eq_on_host_type_calls_after_operands: `tok(1, 4) != tok(2, 9)`
 example : (evalExpr [] 9 [] (.bin .ne (tokE 1 4) (tokE 2 9))).yields
     [⟨8, [.int 1, .int 4]⟩, ⟨8, [.int 2, .int 9]⟩, ⟨fnEq, [.tok 4, .tok 9]⟩] ([], .bool true) := by decide
